@@ -110,9 +110,15 @@ PROPS["C12"] = {
     "not_covered": ["outstation::session::handle_non_read / write_error_response / handle_write (async + dispatcher)"],
 }
 
+PROPS["C19"] = {
+    "level_text": "Proof of the timing and precedence building blocks of master scheduling: a periodic poll becomes due exactly one period after its previous run completed (or at once when demanded), the poll map returns a due poll or the EARLIEST deadline to sleep until, the keep-alive is due only after the configured silence since the last link activity, and the per-association choice gives automatic tasks precedence over polls over keep-alive.",
+    "level_note": "PARTIAL: FIFO order of user requests (VecDeque<Task>), turn-taking between associations (AssociationMap), 'at most one request outstanding' and non-starvation are async/Task-valued code outside CBMC's reach and are NOT covered. Poll map bounded to two polls.",
+    "not_covered": ["master::association::Association::priority_task / AssociationMap::next_task (Task values, BTreeMap of associations)", "master::task run loops (async): one request outstanding, sleeping"],
+    "assumptions": ["tokio::time::Instant::now replaced by a harness clock"],
+}
+
 NA = {
     "C02": "whole-system history over real TCP and three threads: no function contract within reach expresses it (Kani has no threads, tokio I/O crashes the Kani compiler); its ingredients are decided under C03/C06/C08/C09/C10/C13",
     "C14": "every rule is control flow inside async fns that hold the physical layer (check_unsolicited, perform_unsolicited_response_series, wait_for_unsolicited_confirm, handle_deferred_read): outside both verifiers",
     "C15": "the acceptance predicates are async fns taking &mut PhysLayer (validate_non_read_response, process_read_response, handle_unsolicited): any harness reaching them crashes the Kani compiler; Verus has no route to them",
-    "C19": "scheduling functions return Task/Poll values and live on Association (boxed handlers, VecDeque<Task>): CBMC does not finish instrumenting such programs; remaining rules are async control flow",
 }
